@@ -1,15 +1,19 @@
 package harness
 
 import (
+	"bazil.org/fuse"
+	"bazil.org/fuse/fs"
 	"bytes"
 	"context"
 	"errors"
 	"fmt"
+	sfuse "github.com/jech/storrent/fuse"
 	"io"
 	"net/http"
 	"net/http/httptest"
 	"net/netip"
 	"net/url"
+	"sort"
 	"strings"
 	"time"
 
@@ -27,7 +31,7 @@ func init() {
 	// registers, then fails to listen on an unusable address)
 	shttp.Serve("256.256.256.256:0")
 	Register(&Scenario{
-		Name: "reader", Props: []string{"C02"}, CrashTo: "",
+		Name: "reader", Knobs: true, Props: []string{"C02"}, CrashTo: "",
 		Horizon: 6 * time.Hour, MaxSteps: 1500000, Weight: 1, Main: readerMain,
 		NontrivialNeedsFault: true,
 	})
@@ -56,11 +60,13 @@ func (e *readerEnv) watchHangs(nusers int) {
 	for !e.w.stopped && !e.rc.Failed() {
 		simrt.Sleep(5 * time.Second)
 		now := time.Now()
-		for u := 0; u < nusers; u++ {
-			since, in := e.blocked[u]
-			if !in {
-				continue
-			}
+		var keys []int
+		for u := range e.blocked {
+			keys = append(keys, u)
+		}
+		sort.Ints(keys)
+		for _, u := range keys {
+			since := e.blocked[u]
 			var why string
 			var from time.Time
 			if e.killed && !e.killTime.IsZero() {
@@ -76,7 +82,7 @@ func (e *readerEnv) watchHangs(nusers int) {
 				from = since
 			}
 			if now.Sub(from) > time.Minute {
-				e.rc.Fail("C02", "promptness", "hangs", "user%d is still blocked in a read %v after %s", u, now.Sub(from), why)
+				e.rc.Fail("C02", "promptness", "hangs", "user %d (100(u+1)+k: fuse thread k of user u) is still blocked in a read %v after %s", u, now.Sub(from), why)
 				e.rc.S.Abort("a read hangs")
 				return
 			}
@@ -88,7 +94,7 @@ func (e *readerEnv) watchHangs(nusers int) {
 func drawSeedCfg(st *simrt.Stream, name string, port int) PeerCfg {
 	return PeerCfg{
 		Name: name, Port: port, Fast: st.Bool(1, 2), Ext: st.Bool(2, 3), DHT: st.Bool(1, 3),
-		MSE: st.Bool(1, 3), Have: func(int) bool { return true }, Advertise: st.Choice(3), Reqq: simrt.Pick(st, -1, 250, 16, 2),
+		MSE: st.Bool(1, 3), Have: func(int) bool { return true }, Advertise: DrawAdvertise(st), Reqq: simrt.Pick(st, -1, 250, 16, 2),
 		MetadataSize: -1, UnchokeAfter: time.Duration(st.Choice(3)) * time.Second,
 		AnswerDelay: func() time.Duration { return time.Duration(st.Choice(40)) * time.Millisecond },
 	}
@@ -168,7 +174,7 @@ func readerMain(rc *RunCtx) {
 	simrt.GoNamed("hang-watchdog", func() { env.watchHangs(nusers) })
 	for u := 0; u < nusers; u++ {
 		u := u
-		kind := st.Weighted(3, 2)
+		kind := st.Weighted(3, 2, 2)
 		simrt.GoNamed(fmt.Sprintf("user%d", u), func() {
 			defer join.Done()
 			switch kind {
@@ -176,6 +182,8 @@ func readerMain(rc *RunCtx) {
 				env.rawUser(u, withFaults)
 			case 1:
 				env.httpUser(u, withFaults)
+			case 2:
+				env.fuseUser(u, withFaults)
 			}
 		})
 	}
@@ -556,6 +564,154 @@ func (e *readerEnv) httpUser(u int, withFaults bool) {
 			return
 		}
 		rc.Progress()
+	}
+}
+
+// ---- FUSE user ------------------------------------------------------------------------------
+
+// fuseUser drives the FUSE node tree the way bazil's fs.Serve does - Lookup
+// from the root, Open, concurrent Read requests on one handle (the kernel
+// issues read-ahead in parallel: fuse.AsyncRead), interrupted requests,
+// Release - without a kernel mount.
+func (e *readerEnv) fuseUser(u int, withFaults bool) {
+	rc, st, spec := e.rc, e.rc.St, e.spec
+	bg := context.Background()
+	var f *FileSpec
+	off, length := int64(0), spec.Geo.Length
+	comps := []string{spec.Name}
+	if len(spec.Files) > 0 {
+		var cands []int
+		for i := range spec.Files {
+			if !spec.Files[i].Pad {
+				cands = append(cands, i)
+			}
+		}
+		if len(cands) == 0 {
+			return
+		}
+		f = &spec.Files[cands[st.Choice(len(cands))]]
+		off, length = f.Offset, f.Length
+		comps = append(comps, f.Path...)
+	}
+	model := spec.Bytes(off, length)
+	var node fs.Node = sfuse.SimRoot()
+	for _, c := range comps {
+		l, ok := node.(fs.NodeStringLookuper)
+		if !ok {
+			rc.Fail("C02", "fuse-lookup", "", "node %T on the way to %v cannot look names up", node, comps)
+			return
+		}
+		n, err := l.Lookup(bg, c)
+		if err != nil {
+			if e.killed {
+				return
+			}
+			rc.Fail("C02", "fuse-lookup", "", "Lookup(%q) on the way to %v: %v", c, comps, err)
+			return
+		}
+		node = n
+	}
+	var attr fuse.Attr
+	if err := node.Attr(bg, &attr); err == nil && int64(attr.Size) != length && !e.killed {
+		rc.Fail("C02", "fuse-size", "", "%v: Attr reports %d bytes, the file has %d", comps, attr.Size, length)
+		return
+	}
+	h, err := node.(fs.NodeOpener).Open(bg, &fuse.OpenRequest{Flags: fuse.OpenReadOnly}, &fuse.OpenResponse{})
+	if err != nil {
+		if e.killed {
+			return
+		}
+		rc.Fail("C02", "fuse-open", "", "Open(%v): %v", comps, err)
+		return
+	}
+	rc.Tracef("user%d: fuse handle on %v (off=%d len=%d)", u, comps, off, length)
+	nthreads := 1 + st.Choice(3)
+	nreads := 2 + st.Choice(8)
+	final := false
+	j := &Join{n: nthreads}
+	for k := 0; k < nthreads; k++ {
+		key := 100*(u+1) + k
+		simrt.GoNamed(fmt.Sprintf("user%d-fuse%d", u, k), func() {
+			defer j.Done()
+			for op := 0; op < nreads && !rc.Failed(); op++ {
+				simrt.Sleep(time.Duration(st.Choice(4000)) * time.Millisecond)
+				if op == nreads-1 {
+					for e.faultsOn {
+						simrt.Sleep(time.Second)
+					}
+					final = true
+				}
+				o := int64(st.Choice(int(length) + 1))
+				if st.Bool(1, 8) {
+					o = length + int64(st.Choice(100000)) // at or beyond the end
+				}
+				size := simrt.Pick(st, 4096, 1, 16384, 65536, 131072, 1+st.Choice(200000))
+				ctx, cancel := context.WithCancel(bg)
+				interrupted := false
+				if withFaults && !final && st.Bool(1, 6) {
+					d := time.Duration(st.Choice(5000)) * time.Millisecond
+					simrt.Fault("fuse-request-interrupted")
+					simrt.GoNamed("fuse-interrupt", func() {
+						simrt.Sleep(d)
+						interrupted = true
+						e.gone[key] = time.Now()
+						cancel()
+					})
+				}
+				req := &fuse.ReadRequest{Offset: o, Size: size}
+				resp := &fuse.ReadResponse{Data: make([]byte, 0, size)}
+				e.blocked[key] = time.Now()
+				err := h.(fs.HandleReader).Read(ctx, req, resp)
+				delete(e.blocked, key)
+				delete(e.gone, key)
+				cancel()
+				want := []byte{}
+				if o < length {
+					want = model[o:min(o+int64(size), length)]
+				}
+				got := resp.Data
+				if len(got) > len(want) || !bytes.Equal(got, want[:len(got)]) {
+					k := 0
+					for k < len(got) && k < len(want) && got[k] == want[k] {
+						k++
+					}
+					rc.Fail("C02", "fuse-content", "", "fuse read of %v at %d (%d bytes asked): %d bytes returned, the file has %d there; first difference at %d", comps, o, size, len(got), len(want), k)
+					return
+				}
+				if err != nil || len(got) < len(want) {
+					if interrupted || e.killed {
+						simrt.Probe("fuse-read-cut-short-after-interrupt-or-kill")
+						if e.killed {
+							return
+						}
+						continue
+					}
+					rc.Fail("C02", "fuse-read", "", "fuse read of %v at %d (%d bytes asked) returned %d of %d bytes, error %v, with nothing cancelled and the torrent alive", comps, o, size, len(got), len(want), err)
+					return
+				}
+				rc.Progress()
+			}
+		})
+	}
+	// the bounded-liveness clause for the last read of every thread
+	simrt.GoNamed(fmt.Sprintf("user%d-fuse-watchdog", u), func() {
+		for !final && j.n > 0 {
+			simrt.Sleep(time.Second)
+		}
+		limit := time.Now().Add(time.Duration(spec.Geo.NPieces+1) * 300 * time.Second)
+		for j.n > 0 && time.Now().Before(limit) {
+			simrt.Sleep(time.Second)
+		}
+		if j.n > 0 && !e.killed && !rc.Failed() {
+			rc.Fail("C02", "liveness", "fuse-stalled", "a fuse read of %v has not finished %d x 300 s after faults stopped, with an honest unchoking seed connected", comps, spec.Geo.NPieces+1)
+			rc.S.Abort("a fuse read stalls")
+		}
+	})
+	j.Wait()
+	if r, ok := h.(fs.HandleReleaser); ok {
+		if err := r.Release(bg, &fuse.ReleaseRequest{}); err != nil && !e.killed {
+			rc.Fail("C02", "fuse-release", "", "Release: %v", err)
+		}
 	}
 }
 
